@@ -9,7 +9,7 @@ from ..core import CRASH
 
 ID = "C19"
 LEVEL = "exploration"
-RULE = ("every string of <=3 (thorough 4) atoms over a 33-atom typographic alphabet (quotes, escaped quotes, entity "
+RULE = ("every string of <=3 (thorough 4) atoms over a 36-atom typographic alphabet (quotes, escaped quotes, entity "
         "quotes, code spans, links with titles, raw HTML, autolinks with quotes, (c) -- ... +- !!!! line breaks) x "
         "{replacements, smartquotes, both} x 4 quote option shapes (4-char string, lists with multi-character, empty "
         "and NBSP strings) x {commonmark, js-default, commonmark html off}: the stream with the typographer on has the "
@@ -22,7 +22,9 @@ RULE = ("every string of <=3 (thorough 4) atoms over a 33-atom typographic alpha
 ATOMS = ["a", " ", '"', "'", "*", "`", "[", "](u 't')", '\\"', "&quot;", "<b>", "<http://a'b>", "(c)", "--", "...", "\n",
          "1", ".", "!!!!", "+-", "\\'", "<a href=\"x'y\">", "(tm) ", "[l](u)", "<http://x/(c)--y...z(tm)>",
          # an opening quote left unmatched in one block, a later block; a whole code span; entity-spelled letters
-         "\"a\n\n", "'a\n\n> ", "`c`", "*b*", "(&#99;)", "(&#x54;m)", "&#99;", "&#45;&#45;"]
+         "\"a\n\n", "'a\n\n> ", "`c`", "*b*", "(&#99;)", "(&#x54;m)", "&#99;", "&#45;&#45;",
+         # a word-final unmatched quote, a quoted word, an e-mail autolink with replaceable text
+         "a' ", "\"b\"", "<o'b--c...d@e.f>"]
 QUOTES = ["“”‘’", ["<<", ">>", "<", ""], "abcd", ["« ", " »", "‹ ", " ›"]]
 BASES = [("commonmark", {}), ("js-default", {}), ("commonmark", {"html": False})]
 MODES = [("both", ["replacements", "smartquotes"]), ("sq", ["smartquotes"]), ("repl", ["replacements"])]
@@ -33,9 +35,10 @@ def shape(tokens, in_auto=None):
     auto = 0
     for t in tokens:
         d = t.as_dict(children=False)
-        if t.type == "link_open" and t.info == "auto":
+        # an autolink is recognised by either of its marks (info "auto", markup "autolink" / "linkify")
+        if t.type == "link_open" and (t.info == "auto" or t.markup in ("autolink", "linkify")):
             auto += 1
-        if t.type == "link_close" and t.info == "auto":
+        if t.type == "link_close" and (t.info == "auto" or t.markup in ("autolink", "linkify")):
             auto -= 1
         if t.type == "text" and not auto:
             d["content"] = None
